@@ -80,6 +80,8 @@ class Generator:
         self.pending_after = []
         self.canary_fns = set()
         self.syntactic = []
+        self.lenient = False        # drop proof hints whose anchor is lost instead of giving up (check.py, second attempt)
+        self.dropped_hints = {}
         self.field_types: Dict[str, Dict[str, str]] = {}
         # struct name -> ghost field names (`@attr ghostfield:<name>: <spec type>`), known before any fn text is rewritten
         self.ghost_fields: Dict[str, List[str]] = {}
@@ -1310,6 +1312,11 @@ impl Clone for %s {
                     continue
                 ms = list(re.finditer(pf.regex, txt[b_lo:b_hi]))
                 if len(ms) != 1:
+                    if getattr(self, 'lenient', False):
+                        # second attempt of check.py (DESIGN 13.14): the hint is dropped and recorded; every failure inside this function is then
+                        # "undecided", the other functions and the structural obligations are judged as usual
+                        self.dropped_hints.setdefault(addr.split('#')[0], []).append('%s /%s/ matches %d times' % (pf.oid, pf.regex, len(ms)))
+                        continue
                     raise ToolCondition('lost anchor: %s: /%s/ matches %d times (contract %s)' % (addr, pf.regex, len(ms), pf.src))
                 m = ms[0]
                 if pf.mode == 'after':
